@@ -177,10 +177,10 @@ def prop_inplace(case):
 
 
 def subchecks(ctx):
-    return [Sub("ladder", base(), prop, {"quick": 250, "thorough": 4000},
+    return [Sub("ladder", base(), prop, {"quick": 750, "thorough": 4000},
                 nontrivial=lambda c: True,
                 classes=lambda c: ["tb>30" if c["p"]["TB"] > 30 else "tb<=30", "mode:" + c.get("mode", "generic")],
                 rule="7-rung scaling ladder of an on-shell base point"),
-            Sub("inplace", base(), prop_inplace, {"quick": 40, "thorough": 1000},
+            Sub("inplace", base(), prop_inplace, {"quick": 120, "thorough": 1000},
                 nontrivial=lambda c: True, classes=lambda c: ["inplace"],
                 rule="the same ladder walked on one model object that is rescaled through its setters and recomputed")]
